@@ -215,6 +215,20 @@ func runPath(p *Program, cfg *HarnessCfg, fn *ssa.Function, prefix []Decision, s
 			}
 		}
 	}()
+	defer func() {
+		// pending implicit checks are discharged whatever way the path ended
+		if e.endWhy != "infeasible" && e.endWhy != "assumption false" {
+			func() {
+				defer func() {
+					if r := recover(); r != nil {
+						e.inconcl = fmt.Sprintf("flush: %v", r)
+					}
+				}()
+				e.guard = nil
+				e.flushPanics()
+			}()
+		}
+	}()
 	e.callFunction(fn, nil)
 	e.endWhy = "returned"
 	return e
